@@ -57,7 +57,7 @@ def run(c):
     rebound = use_scratch_rebound(d)
     P = rebound.Particle
     clib = rebound.clibrebound
-    ok = c.prove(["RV.Props.C12"])
+    ok = c.prove(["RV.Props.C12", "RV.Props.C12Frame"])
     exe = lean_exe("drv_c12")
     ncases = 4000 if c.thorough else 400
     c.cov["rule"] = ("random particle sets (N 1..20, a tenth N 50..2000; N_active 1..N; 5 mass families incl. zero masses and "
@@ -315,6 +315,61 @@ def run(c):
                         searchfail.append((integ + " inertial_to_dh/dh_to_inertial round trip does not return the input", dict(n=n, na=nae, tpt=tpt, ms=ms, comp=k, xs=comps[k], err=e)))
                 c.count((integ + "_dh", n, nae, tpt, case % 5), nontrivial=nae >= 2)
                 del sim
+        # ------------------------------------------------ public frame changes (tools.c): move_to_hel / move_to_com
+        if n <= 40:
+            withvar = rng.chance(0.4)
+            def mk():
+                sim = rebound.Simulation()
+                for i in range(n):
+                    sim.add(m=ms[i], x=comps["x"][i], y=comps["y"][i], z=comps["z"][i],
+                            vx=comps["vx"][i], vy=comps["vy"][i], vz=comps["vz"][i])
+                sim.N_active = na if not (na == n and rng.chance(0.5)) else -1
+                if withvar:   # variational particles behind the real ones must not enter N_real loops
+                    v = sim.add_variation()
+                    for i in range(n):
+                        v.particles[i].x = 1.0 + i; v.particles[i].vy = -2.0 - i; v.particles[i].m = 0.25 * ms[i]
+                return sim
+            pv = COMPS_POS + COMPS_VEL
+            sim = mk()
+            cm = sim.com()
+            for k in pv:
+                add("com", n, ms, comps[k], [cm.m, getattr(cm, k)], ("reb_simulation_com", k, n, n, case))
+            clib.reb_simulation_move_to_hel(ctypes.byref(sim))
+            ps = sim.particles
+            for k in pv:
+                got = [getattr(ps[i], k) for i in range(n)]
+                add("moveToHel", n, ms, comps[k], got, ("reb_simulation_move_to_hel", k, n, n, case))
+                tolk = 64 * 2.3e-16 * scale
+                if got[0] != 0.0:
+                    searchfail.append(("move_to_hel does not put particle 0 at the origin at rest", dict(n=n, ms=ms, comp=k, xs=comps[k], got=got[0])))
+                e = max([abs(got[i] - (comps[k][i] - comps[k][0])) for i in range(1, n)] + [0.0])
+                e2 = max([abs((got[i] + comps[k][0]) - comps[k][i]) for i in range(n)])
+                worst["hel_rt"] = max(worst.get("hel_rt", 0), e2 / scale)
+                if not e <= tolk:
+                    searchfail.append(("move_to_hel does not leave coordinates relative to particle 0 unchanged", dict(n=n, ms=ms, comp=k, xs=comps[k], got=got, err=e)))
+                elif not e2 <= 4 * tolk:
+                    searchfail.append(("move_to_hel followed by adding particle 0 back does not return the input", dict(n=n, ms=ms, comp=k, xs=comps[k], got=got, err=e2)))
+            c.count(("move_to_hel", n, na, withvar, case % 5), nontrivial=n >= 2)
+            del sim
+            sim = mk()
+            clib.reb_simulation_move_to_com(ctypes.byref(sim))
+            ps = sim.particles
+            Mall = math.fsum(ms)
+            for k in pv:
+                got = [getattr(ps[i], k) for i in range(n)]
+                add("moveToCom", n, ms, comps[k], got, ("reb_simulation_move_to_com", k, n, n, case))
+                comall = math.fsum(ms[i] * comps[k][i] for i in range(n)) / Mall
+                res = math.fsum(ms[i] * got[i] for i in range(n)) / Mall
+                worst["com_residual"] = max(worst.get("com_residual", 0), abs(res) / scale)
+                if not abs(res) <= 1e-9 * scale:
+                    searchfail.append(("after move_to_com the centre of mass of all real particles is not at the origin / at rest", dict(n=n, ms=ms, comp=k, xs=comps[k], residual=res)))
+                e = max(abs(got[i] - (comps[k][i] - comall)) for i in range(n))
+                if not e <= 1e-9 * scale:
+                    searchfail.append(("move_to_com is not the uniform shift by the centre of mass (relative coordinates changed)", dict(n=n, ms=ms, comp=k, xs=comps[k], got=got, err=e)))
+                if not abs(getattr(cm, k) - comall) <= 1e-9 * scale or not abs(cm.m - Mall) <= 1e-12 * Mall:
+                    searchfail.append(("reb_simulation_com is not the mass-weighted mean of all real particles", dict(n=n, ms=ms, comp=k, xs=comps[k], got=getattr(cm, k), want=comall)))
+            c.count(("move_to_com", n, na, withvar, case % 5), nontrivial=n >= 2)
+            del sim
         if case < 2:
             c.sample({"N": n, "N_active": na, "masses": ms[:6], "x": comps["x"][:6], "line": lines[-1][:200]})
 
